@@ -29,6 +29,8 @@ class World:
         self._oldtmp = tempfile.tempdir
         self.root = pathlib.Path(tempfile.mkdtemp(prefix="eko-verif-store-"))
         self.path = self.root / "out.tar"
+        self.path2 = self.root / "copy.tar"
+        self._arc2_cache = (None, None)
         # the library's own temporary directories land inside this world
         (self.root / "tmp").mkdir()
         tempfile.tempdir = str(self.root / "tmp")
@@ -135,16 +137,21 @@ class World:
         fs["bad"].sort()
         return fs
 
-    def proj_arc(self):
-        if not self.path.exists():
-            self._arc_cache = (None, None)
+    def proj_arc(self, second=False):
+        path = self.path2 if second else self.path
+        cache = self._arc2_cache if second else self._arc_cache
+        if not path.exists():
+            if second:
+                self._arc2_cache = (None, None)
+            else:
+                self._arc_cache = (None, None)
             return self.proj_fs(None), "absent"
-        sha = hashlib.sha256(self.path.read_bytes()).hexdigest()
-        if self._arc_cache[0] == sha:
-            return self._arc_cache[1], sha
+        sha = hashlib.sha256(path.read_bytes()).hexdigest()
+        if cache[0] == sha:
+            return cache[1], sha
         tmp = pathlib.Path(tempfile.mkdtemp(prefix="eko-verif-arc-"))
         try:
-            with tarfile.open(self.path) as tar:
+            with tarfile.open(path) as tar:
                 tar.extractall(tmp, filter="data")
             fs = self.proj_fs(tmp)
         except tarfile.TarError:
@@ -153,7 +160,10 @@ class World:
             fs["bad"] = ["k?"]
         finally:
             shutil.rmtree(tmp, ignore_errors=True)
-        self._arc_cache = (sha, fs)
+        if second:
+            self._arc2_cache = (sha, fs)
+        else:
+            self._arc_cache = (sha, fs)
         return fs, sha
 
     def proj_obj(self):
@@ -174,6 +184,7 @@ class World:
             "obj": self.proj_obj(),
             "dir": self.proj_fs(d),
             "arc": arc,
+            "arc2": self.proj_arc(second=True)[0],
             "arcsha": sha,
             "mmeta": self.metatok(self.eko.metadata.version) if self.eko is not None else "m0",
         }
@@ -231,6 +242,22 @@ class World:
             elif op == "update":
                 self.eko.update()
                 out = r("ok")
+            elif op == "withop":
+                with self.eko.operator(self.ep(k, f)) as o:
+                    out = r("val", self.valtok(o))
+            elif op == "deepcopy":
+                self.eko.deepcopy(self.path2)
+                out = r("ok")
+            elif op == "createbad":
+                if v == "suffix":
+                    EKO.create(self.root / "out.dat")
+                else:
+                    b = EKO.create(self.root / "nocards.tar")
+                    try:
+                        b.build()
+                    finally:
+                        shutil.rmtree(b.path, ignore_errors=True)
+                out = r("ok")
             elif op == "recipe":
                 from eko.io.items import Evolution
 
@@ -268,7 +295,7 @@ class World:
 
 def enabled(op, has_obj):
     """The alphabet of Store.tla: which calls make sense with / without an object."""
-    if op in ("create", "read", "edit"):
+    if op in ("create", "read", "edit", "createbad"):
         return not has_obj
     return has_obj
 
